@@ -14,6 +14,10 @@ import (
 
 type c13Seg struct {
 	Interval, Initial, End uint64
+	// Derived: the segmenter is obtained from another one (BaseInitial, BaseEnd) that was already used, through
+	// WithInitialBlock and WithExclusiveEndBlock, as the scheduler derives the segmenters of modules and stages
+	Derived              bool   `json:",omitempty"`
+	BaseInitial, BaseEnd uint64 `json:",omitempty"`
 }
 
 func safely(f func() *ev.Failure) (out *ev.Failure) {
@@ -29,6 +33,14 @@ func safely(f func() *ev.Failure) (out *ev.Failure) {
 func checkC13Seg(c c13Seg) *ev.Failure {
 	return safely(func() *ev.Failure {
 		s := block.NewSegmenter(c.Interval, c.Initial, c.End)
+		if c.Derived {
+			base := block.NewSegmenter(c.Interval, c.BaseInitial, c.BaseEnd)
+			_ = base.Range(base.FirstIndex())
+			_ = base.Range(base.LastIndex())
+			_ = base.EndsOnInterval(base.FirstIndex())
+			s = base.WithInitialBlock(c.Initial).WithExclusiveEndBlock(c.End)
+			_ = base.Range(base.FirstIndex())
+		}
 		first, last := s.FirstIndex(), s.LastIndex()
 		if last < first {
 			return ev.Failf("seg/index-order", "%+v: last index %d < first %d", c, last, first)
@@ -140,17 +152,22 @@ func TestC13SegExhaustive(t *testing.T) {
 				continue
 			}
 			for end := init + 1; end <= 96; end++ {
-				c := c13Seg{size, init, end}
+				c := c13Seg{Interval: size, Initial: init, End: end}
 				f := checkC13Seg(c)
 				r.CaseKey(size<<32|init<<16|end, c13SegNontrivial(c), func() any { return c })
 				r.Report(t, c, f)
+				if f == nil && (init+end)%3 == 0 {
+					// the same segmenter derived from a used one with a lower initial block and another end
+					d := c13Seg{Interval: size, Initial: init, End: end, Derived: true, BaseInitial: init / 2, BaseEnd: end + size + 1}
+					r.Report(t, d, checkC13Seg(d))
+				}
 			}
 		}
 	}
 }
 
 func TestC13SegRandom(t *testing.T) {
-	ev.Get("C13", "SegRandom").Rule = "rapid: segment size up to 2^20, initial/end up to 2^40 biased to boundaries; non-trivial as in the exhaustive part"
+	ev.Get("C13", "SegRandom").Rule = "rapid: segment size up to 2^20, initial/end up to 2^40 biased to boundaries, one case in three obtained with WithInitialBlock/WithExclusiveEndBlock from a segmenter that was already queried; non-trivial as in the exhaustive part"
 	ev.Prop(t, "C13", "SegRandom", func(t *rapid.T) c13Seg {
 		size := rapid.OneOf(rapid.Uint64Range(1, 20), rapid.Uint64Range(1, 1<<20)).Draw(t, "size")
 		near := func(label string) uint64 {
@@ -181,7 +198,16 @@ func TestC13SegRandom(t *testing.T) {
 		if (end-init)/size > 3000 { // keep the per-case walk bounded
 			end = init + 3000*size
 		}
-		return c13Seg{size, init, end}
+		c := c13Seg{Interval: size, Initial: init, End: end}
+		if rapid.IntRange(0, 2).Draw(t, "derived") == 0 {
+			c.Derived = true
+			c.BaseInitial = rapid.Uint64Range(0, init).Draw(t, "baseinit")
+			c.BaseEnd = end + rapid.Uint64Range(0, 3*size).Draw(t, "baseend")
+			if c.BaseEnd <= c.BaseInitial {
+				c.BaseEnd = c.BaseInitial + 1
+			}
+		}
+		return c
 	}, checkC13Seg, func(c c13Seg) (bool, []string) {
 		return c13SegNontrivial(c), []string{fmt.Sprintf("segments<=%d", bucket((c.End-1)/c.Interval-c.Initial/c.Interval+1))}
 	})
